@@ -334,6 +334,32 @@ theorem guard_installs_creation_callback (syms : List Str) (entries : List Entry
   simp only [] at hn hk
   simp only [MethodG.grun, MethodG.gstep, hg', hn, hi, behavOf, hg, hk, if_true]
 
+/-! ## 6c. behind the wrapper of a generic method (`Model/InnerFn.lean`, `bytecode.GetInnerFunc`) -/
+
+/-- **the code patched for a generic method is the target of the wrapper's first CALL that leaves the wrapper**, forward
+    or backward, whatever (non-call, non-padding) instructions precede it and whatever follows it -/
+theorem inner_is_first_call (pre rest : List InnerFn.Ins) (rel : Int) (hp : pre.all InnerFn.isFill = true)
+    (h : rel ≥ 0 ∨ (InnerFn.codeLen pre : Int) + rel < 0) :
+    InnerFn.inner (pre ++ InnerFn.Ins.call rel :: rest) = some ((InnerFn.codeLen pre : Int) + rel + 5) := by
+  unfold InnerFn.inner
+  rw [C06IL.go_fills pre hp]
+  simp only [Nat.zero_add, InnerFn.go, Bool.false_eq_true, if_false]
+  rcases h with h | h
+  · simp [h]
+  · have : ¬ rel ≥ 0 := by omega
+    simp [this, h]
+
+/-- a wrapper that reaches its padding (or the next function) without such a CALL is patched itself -/
+theorem inner_none_without_call (pre rest : List InnerFn.Ins) (hp : pre.all InnerFn.isFill = true) :
+    InnerFn.inner (pre ++ InnerFn.Ins.int3 :: InnerFn.Ins.fill 1 :: rest) = none ∧
+    InnerFn.inner (pre ++ InnerFn.Ins.prologue :: rest) = none := by
+  unfold InnerFn.inner
+  rw [C06IL.go_fills pre hp, C06IL.go_fills pre hp]
+  simp [InnerFn.go]
+
+example : InnerFn.inner [.fill 4, .fill 7, .call (-300), .fill 3, .call 64] = some (-284) ∧
+    InnerFn.inner [.fill 4, .call (-3), .fill 7, .call 64, .int3] = some (85) := by decide
+
 /-! ## 7. the hypotheses are satisfiable / the statements are not vacuous -/
 
 section Examples
